@@ -62,6 +62,10 @@ func vGenBitmap(p string) (*Bitmap, *vBDesc) {
 			key = uint16(i + 1)
 		case pat == 6:
 			key = uint16(2 * i)
+		case pat == 15:
+			key = []uint16{4, 6, 40, 41}[i]
+		case pat == 16:
+			key = []uint16{2, 6, 7, 50}[i]
 		case pat == 13:
 			key = uint16(4 + 16*i)
 		case pat == 14:
